@@ -377,6 +377,10 @@ func (ch c03) segmentation(c *core.Ctx, envPlain, envAuth *hs.Env, rng *core.Rng
 		c.Violate("wedge", "connection did not end after EOF (all-at-once delivery)", shape, cs)
 		return
 	}
+	if p := c15execProblem(s, strings.Split(refTrace, "|")); p != "" && !truncated {
+		c.Violate("leak", "data of one message changed by another message", fmt.Sprintf("stream [%s]: %s", shape, p), cs)
+		return
+	}
 	headerCuts := 0
 	for k := 1; k < segs; k++ {
 		var cuts []int
